@@ -3097,6 +3097,11 @@ impl Zeroconf {
                 continue;
             };
 
+            // A goodbye gives the name up, it does not claim it.
+            if answer.get_record().get_ttl() <= 1 {
+                continue;
+            }
+
             // check against possible multicast forwarding
             if answer.get_type() == RRType::A || answer.get_type() == RRType::AAAA {
                 if let Some(answer_addr) = answer.any().downcast_ref::<DnsAddress>() {
